@@ -103,6 +103,7 @@ func runC16(c *Ctx) {
 	c16R2(e)
 	c16R3(e)
 	c16R4(e)
+	c16StaleToken(e)
 	c16R5(e)
 }
 
@@ -2222,4 +2223,138 @@ func c16R5(e *c16Env) {
 	}
 	c.Check(R, fn+"|panic-hands-token-back", F.Pos(), okP,
 		ifelse(okP, "a deferred recover handler puts the token back (only) when f panicked", "a panic in f leaves the in-progress token taken (later callers park forever), or the handler puts a second token back on normal exits"))
+}
+
+// ---------- R4b: a stale cached token is replaced ----------
+
+// c16StaleToken: every send of Client.Do whose request carries a token taken
+// from the cache (Cache.GetToken) is followed — on every path to a return of
+// Do — by a test of that response's status against 401 (or by the send's own
+// error return), and the 401 side of that test leads on to the token fetch
+// (Cache.Set).  Otherwise an expired cached token is handed back to the caller
+// as the registry's 401 although valid credentials are at hand.
+func c16StaleToken(e *c16Env) {
+	const R = "C16.R4.stale-token-replaced"
+	c := e.c
+	c.Expect(R, 1)
+	V := e.SV
+	// status tests against 401 and their edges
+	var all401, sides401 []Edge // both edges of every test; the "== 401" side
+	for _, g := range V.Funcs() {
+		for _, i := range Ifs(g) {
+			cond, t, f := ifEdges(i)
+			bo, ok := cond.(*ssa.BinOp)
+			if !ok || (bo.Op != token.EQL && bo.Op != token.NEQ) {
+				continue
+			}
+			x, y := bo.X, bo.Y
+			if k, isK := constInt(y); !isK || k != 401 {
+				x, y = y, x
+			}
+			if k, isK := constInt(y); !isK || k != 401 {
+				continue
+			}
+			isStatus := false
+			for _, l := range V.Leaves(x) {
+				if ld, isLd := l.(*ssa.UnOp); isLd && ld.Op == token.MUL {
+					if fa, isFA := ld.X.(*ssa.FieldAddr); isFA && fieldName(fa.X.Type(), fa.Field) == "net/http.Response.StatusCode" {
+						isStatus = true
+					}
+				}
+			}
+			if !isStatus {
+				continue
+			}
+			all401 = append(all401, t, f)
+			if bo.Op == token.EQL {
+				sides401 = append(sides401, t)
+			} else {
+				sides401 = append(sides401, f)
+			}
+		}
+	}
+	sets := V.CallsTo(c16Cache + "Set")
+	// Authorization assignments with a cached token, per instance: the clone they are made on
+	type cv = c14CV
+	cachedClones := map[cv]bool{}
+	V.Each(func(li c14LI) {
+		call, ok := li.In.(*ssa.Call)
+		if !ok || CalleeName(call) != c16HdrSet {
+			return
+		}
+		if k, isK := constString(call.Call.Args[1]); !isK || !strings.EqualFold(k, "Authorization") {
+			return
+		}
+		fromCache := false
+		for _, ops := range c16Concat(V, call.Call.Args[2], li.Ctx, 0) {
+			if len(ops) == 0 {
+				continue
+			}
+			tok := ops[len(ops)-1]
+			if ex, isEx := tok.V.(*ssa.Extract); isEx && ex.Index == 0 {
+				if cc, isCall := ex.Tuple.(*ssa.Call); isCall && CalleeName(cc) == c16Cache+"GetToken" {
+					fromCache = true
+				}
+			}
+		}
+		if !fromCache {
+			return
+		}
+		if ld, isLd := call.Call.Args[0].(*ssa.UnOp); isLd {
+			if fa, isFA := ld.X.(*ssa.FieldAddr); isFA {
+				for _, l := range V.LeavesIn(fa.X, li.Ctx) {
+					cachedClones[l] = true
+				}
+			}
+		}
+	})
+	n := 0
+	V.Each(func(li c14LI) {
+		call, ok := li.In.(*ssa.Call)
+		if !ok || CalleeName(call) != c16HTTPDo || len(call.Call.Args) != 2 {
+			return
+		}
+		cached := false
+		for _, l := range V.LeavesIn(call.Call.Args[1], li.Ctx) {
+			if cachedClones[l] {
+				cached = true
+			}
+		}
+		if !cached {
+			return
+		}
+		n++
+		key := fmt.Sprintf("%s|cached-token-send#%d", FnName(e.Do), n)
+		// the send's own error
+		var errNonNil []Edge
+		if er := ErrOf(call); er != nil {
+			_, errNonNil = V.NilTests(V.Aliases(er))
+		}
+		cu := newCut().Edges(all401...).Edges(errNonNil...)
+		escaped, _ := V.walk(V.afterLI(li), nil, cu, true)
+		okLeads := len(sets) > 0
+		for _, ed := range sides401 {
+			// tests reached first after this send
+			first, _ := V.walk(V.afterLI(li), c14Is(ed.From.Instrs[len(ed.From.Instrs)-1]), newCut().Edges(all401...), false)
+			if !first {
+				continue
+			}
+			leads := false
+			for _, sc := range sets {
+				if V.EdgeReach(ed, sc.(ssa.Instruction), nil) {
+					leads = true
+				}
+			}
+			if !leads {
+				okLeads = false
+			}
+		}
+		ok = !escaped && okLeads
+		c.Check(R, key, call.Pos(), ok,
+			ifelse(ok, "the answer to a request sent with a cached token is tested for 401, and a 401 leads on to the token fetch",
+				"a request sent with a cached token can have its answer handed back without the 401 test (or the 401 side never reaches Cache.Set): an expired or revoked cached token keeps failing although valid credentials are configured, and it is never replaced"))
+	})
+	if n == 0 {
+		c.LostAnchor(R, FnName(e.Do)+": a send carrying a token from Cache.GetToken")
+	}
 }
